@@ -561,6 +561,8 @@ def reshape(E, t, *shape, node=None, is_view=False):
     numel = numel_of(t.shape)
     shape = infer_shape(E, numel, shape, node)
     src_shape = list(t.shape)
+    if is_view and t.attrs.get("layout_unknown"):
+        raise Unsupported("view() of a tensor whose memory layout the model does not determine (result of an element-wise op on non-contiguous operands)", node)
     if len(shape) == len(src_shape) and all(same_dim(E, a, b) is True for a, b in zip(shape, src_shape)):
         return view_of(t, t.dtype, shape, lambda idx: list(idx), t.strides, identity=True)
     # split both shapes into independent groups of dimensions with equal products (a reshape never mixes such groups):
